@@ -71,7 +71,7 @@ def _wmax_ok(e: ast.AST, inexact: bool = False) -> (bool, str):
     if c < 1:
         return False, f"scaled by {c} < 1"
     others = [a for a in m if a is not atom]
-    if any(a not in ("self.k",) for a in others):
+    if any(a not in ("self.k", "int(self.k)") for a in others):      # (k as a Python int: a narrow numpy k would wrap the product)
         return False, f"multiplied by {others}"
     return True, f"{c}*{'*'.join(others + ['weight_type(max non-ignored flow)'])} >= max flow"
 
